@@ -45,6 +45,9 @@ def cases(draw):
         case["cap"] = draw(st.integers(1, mx + 1))
     else:
         case["ignore"] = draw(st.lists(st.sampled_from(NS_CHOICES), min_size=1, max_size=3, unique=True))
+    # the restriction options are applied behind the reader: they must hold whatever channel delivers the document
+    # (cap: only readers that keep the document order; namespaces: also an in-memory rdflib Graph)
+    case["chan"] = draw(st.sampled_from(common.LINE_CHANNELS + (["rdflib", "rdflib"] if mode == "ns" else [])))
     return case
 
 
@@ -74,11 +77,19 @@ def judge(finds, labels, nt, text):
 
 
 def check(case):
+    with sut.tmpdir() as chan_dir:
+        return _check(case, chan_dir)
+
+
+def _check(case, chan_dir):
     kw, triples = common.base_kwargs(case)
+    chan = case.get("chan", "raw")
+    if chan != "raw":
+        kw = common.deliver(kw, triples, chan, chan_dir)
     cfg = case["cfg"]
     inst_prop = case["g"]["inst_prop"]
     thr = case["thr"]
-    labels = {"mode:" + case["mode"]}
+    labels = {"mode:" + case["mode"], "chan:" + chan}
     if case["mode"] == "cap":
         k = case["cap"]
         kw_cap = dict(kw, instances_cap=k)
@@ -153,6 +164,10 @@ def check(case):
     r = judge(finds, labels, nt, "ignore=%s\n%s" % (ign, text))
     if r is not None and r.status == "violation":
         return r
+    if chan == "rdflib":
+        # an rdflib store delivers the triples in its own order: the differential run below (files, document order) could differ
+        # in tie-breaks, so this channel is judged by the reference profiler only
+        return r if r is not None else ok(labels, nt)
     # differential: run on the filtered document, membership from the full graph
     with sut.tmpdir() as d:
         path = os.path.join(d, "full.nt")
@@ -162,7 +177,8 @@ def check(case):
         with open(path2, "w", encoding="utf-8") as f:
             f.write(to_nt(kept))
         kw_f = dict(kw, graph_file_input=path2, instances_file_input=path)
-        kw_f.pop("raw_graph")
+        kw_f.pop("raw_graph", None)
+        kw_f.pop("input_format", None)
         t3, c3 = sut.shex(kw_f, acceptance_threshold=thr)
     if c3 is not None:
         labels.add("differential-run-crashed")
